@@ -10,6 +10,7 @@ from ..eff import Effects
 from ..report import MISSING
 from ..model import AnalysisError
 from ..symeval import SymEval
+from .. import scenario as SC
 from . import cli_common as cc
 from .c20 import fresh_and_pure, CACHE_DECOS
 
@@ -28,8 +29,8 @@ EXPLANATION = (
 
 
 def run(ctx):
+    ctx.rule(value)
     ctx.rule(stencil)
-    ctx.rule(roundtrip)
     ctx.rule(readonly)
     ctx.rule(dither)
 
@@ -38,44 +39,162 @@ def _apply(prog, name):
     return prog.own_method(prog.cls("pre." + name), "apply")
 
 
+_DTYPES = {"float64": ("f", 8), "float32": ("f", 4), "int16": ("i", 2)}
+
+
+def _spec(e, sig, ip, dtname, axis_kind, rank):
+    """the value e in the scenario (in_place = ip, input dtype, axis none / last / other, rank) on a writeable array"""
+    axis = S.sym("axis")
+    f64 = dtname == "float64"
+    kind, itemsize = _DTYPES[dtname]
+    dt_names = {sig + ".dtype"}
+    f64_names = {"numpy.float64", "np.float64"}
+
+    def shape_of(x):
+        return (x.op == "sym" and x.args[0] == sig + ".shape") or (SC.is_call(x, ".shape") and True)
+
+    def fn(x):
+        if x.op == "sym":
+            if x.args[0] == "in_place":
+                return S.lift(ip)
+            if x.args[0] == "axis" and axis_kind != "other":
+                return S.NONE if axis_kind == "none" else S.lift(-1)
+            if x.args[0] == sig + ".ndim":
+                return S.lift(rank)
+            if x.args[0] == sig + ".dtype.kind":
+                return S.lift(kind)
+            if x.args[0] == sig + ".dtype.itemsize":
+                return S.lift(itemsize)
+            if x.args[0] in (sig + ".flags.writeable", sig + ".flags.owndata", sig + ".flags.c_contiguous"):
+                return S.TRUE
+            return None
+        if x.op == "cmp":
+            op, a, b = x.args
+            if op in ("==", "!=") and ({S.show(a), S.show(b)} & dt_names) and ({S.show(a), S.show(b)} & f64_names):
+                return S.lift(f64 if op == "==" else not f64)
+            if op in ("in", "not in") and a.is_const and b.is_const and isinstance(a.value, str) and isinstance(b.value, str):
+                return S.lift((a.value in b.value) == (op == "in"))
+            if op in ("==", "!=") and a.is_const and b.is_const and isinstance(a.value, str) and isinstance(b.value, str):
+                return S.lift((a.value == b.value) == (op == "=="))
+            m = SC.fold_membership(x, not_among={"axis": (-1, None)})
+            if m is not None:
+                return m
+            if axis_kind == "other" and a == axis and b.is_const and (b.value is None or b.value == -1):
+                if op in ("is", "=="):
+                    return S.FALSE
+                if op in ("is not", "!="):
+                    return S.TRUE
+            return None
+        if x.op in ("not", "bool") and shape_of(x.args[0]):
+            return S.lift((rank == 0) if x.op == "not" else (rank > 0))
+        if x.op == "call":
+            nm = x.args[0]
+            if nm in (".shape", ".ndim", ".dtype") and len(x.args) == 2:
+                inner = x.args[1]
+                if nm != ".dtype" and SC.is_call(inner, ".astype", "numpy.moveaxis") and nm == ".ndim" or (nm == ".shape" and SC.is_call(inner, ".astype")):
+                    return fn(S.call(nm, inner.args[1])) or S.call(nm, inner.args[1])  # astype keeps the shape, moveaxis the rank
+                if inner.op == "sym":
+                    return fn(S.sym(inner.args[0] + nm)) or S.sym(inner.args[0] + nm)
+                if nm == ".ndim":
+                    return S.lift(rank)
+            if nm == "len" and len(x.args) == 2 and shape_of(x.args[1]):
+                return S.lift(rank)
+        return None
+
+    out = SC.canon_np(e)
+    for _ in range(4):
+        nxt = SC.transform(out, fn)
+        if nxt == out:
+            break
+        out = nxt
+    return out
+
+
+def _scenarios(with_scalar):
+    for ip in (True, False):
+        for f64 in ("float64", "float32", "int16"):
+            for rank in ((0, 1, 2, 3) if with_scalar else (1, 2, 3)):
+                for ak in ("none", "last", "other"):
+                    if ak != "none" and rank == 0:
+                        continue
+                    if ak == "other" and rank < 2:
+                        continue
+                    yield ip, f64, ak, rank
+
+
+_VOCAB = {".astype", "numpy.moveaxis", "stored", "getitem", "tuple", "slice", "kw:copy", "numpy.random.normal", "list"}
+
+
+# element-wise functions that are not the identity: their presence in a value that should not contain them is a difference
+_NOT_IDENTITY = {"numpy.rint", "numpy.round", "numpy.around", "numpy.floor", "numpy.ceil", "numpy.trunc", "numpy.fix", "numpy.clip",
+                 "numpy.abs", "numpy.absolute", "numpy.sign", "numpy.negative", "numpy.flip", "numpy.roll", ".round", ".clip"}
+
+
+def value(ctx, R="R-C18-value"):
+    """The value returned by apply, specialised to every scenario, is the documented one."""
+    prog = ctx.prog
+    for name in ("Dither", "Preemphasize"):
+        f = _apply(prog, name)
+        sig = f.params[1]
+        ev = SymEval(prog, f).run()
+        ctx.need(len(ev.returns) >= 1, R, "%s.apply has no return value" % name)
+        if len(ev.returns) == 1:
+            val, rnode = ev.returns[0][1], ev.returns[0][2]
+        else:
+            val, rnode = None, ev.returns[-1][2]
+            for g, v, node in reversed(ev.returns):
+                val = v if val is None else S.cond(g, v, val)
+        sg, cf, dt, f64t = S.sym(sig), S.sym("self.coeff"), S.sym(sig + ".dtype"), S.sym("numpy.float64")
+        i1 = S.call("tuple", S.sym("Ellipsis"), S.call("slice", S.lift(1), S.NONE, S.NONE))
+        i0 = S.call("tuple", S.sym("Ellipsis"), S.call("slice", S.NONE, S.lift(-1), S.NONE))
+        n_ok = 0
+        for ip, f64, ak, rank in _scenarios(name == "Dither"):
+            sc = "in_place=%s, %s input, axis %s, rank %d" % (ip, f64, {"none": "None", "last": "-1", "other": "k (not the last)"}[ak], rank)
+            got = _spec(val, sig, ip, f64, ak, rank)
+            W = sg if (ip and f64 == "float64") else S.call(".astype", sg, f64t)
+            if name == "Dither":
+                if ak == "none" or rank < 2:
+                    size = S.sym(sig + ".shape")
+                else:
+                    ax = S.lift(-1) if ak == "last" else S.sym("axis")
+                    size = S.call("stored", S.mul(S.call("list", S.lift(1)), S.lift(rank)), ax, S.call("getitem", S.sym(sig + ".shape"), ax))
+                body = S.add(W, S.call("numpy.random.normal", S.ZERO, cf, size))
+                what = "Dither.apply returns (float64 working array) + numpy.random.normal(0, coeff, shape) cast back to the input dtype"
+            else:
+                M = W if ak != "other" else S.call("numpy.moveaxis", W, S.sym("axis"), S.lift(-1))
+                U = S.call("stored", M, i1, S.sub(S.call("getitem", M, i1), S.mul(cf, S.call("getitem", M, i0))))
+                body = U if ak != "other" else S.call("numpy.moveaxis", U, S.lift(-1), S.sym("axis"))
+                what = "Preemphasize.apply returns x with x[..., 1:] -= coeff * x[..., :-1] along the chosen axis (sample 0 kept), cast back to the input dtype"
+            wants = [S.call(".astype", body, dt, S.call("kw:copy", S.FALSE)), S.call(".astype", body, dt)]
+            if got in wants or any(S.compare(got, w, domain={})["verdict"] == "equal" for w in wants):
+                n_ok += 1
+                continue
+            calls, syms = SC.vocabulary(got)
+            undecided = SC.residual_conditions(got) or S.has_unknown(got) or (calls - _VOCAB - _NOT_IDENTITY) or (syms - {sig, "self.coeff", sig + ".dtype", sig + ".shape", "numpy.float64", "axis", "Ellipsis"})
+            msg = "[%s] apply returns %s ; documented: %s" % (sc, S.show(got)[:260], S.show(wants[0])[:260])
+            if undecided:
+                ctx.error(R, "cannot decide %s.apply in scenario [%s]: the value uses constructs outside the rule's vocabulary (%s) -- %s" % (
+                    name, sc, ", ".join(sorted(str(c) for c in (calls - _VOCAB)))[:80] or "unresolved condition", S.show(got)[:200]))
+            else:
+                ctx.bad(R, f, rnode, msg, what)
+            break
+        else:
+            ctx.ok(R, f.loc(rnode), what, "%d scenarios (in_place x input dtype float64/float32/int16 x axis none/last/other x rank) evaluated" % n_ok)
+    for name in ("Dither", "Preemphasize"):
+        init = prog.own_method(prog.cls("pre." + name), "__init__")
+        evi = SymEval(prog, init).run()
+        got = evi.env.get("self.coeff")
+        ctx.check(got is not None and got == S.sym("coeff"), "R-C18-stencil" if name == "Preemphasize" else "R-C18-dither-independence", init, init.node,
+                  "coeff is stored unchanged", "%s.__init__ stores coeff as %s" % (name, S.show(got) if got is not None else "nothing"))
+
+
 def stencil(ctx, R="R-C18-stencil"):
     prog = ctx.prog
     f = _apply(prog, "Preemphasize")
-    sig = f.params[1]
-    writes = []
-    for n in f.body_nodes():
-        if isinstance(n, ast.AugAssign) and astq.base_name(n.target) == sig:
-            writes.append(n)
-        elif isinstance(n, ast.Assign) and any(isinstance(t, ast.Subscript) and astq.base_name(t) == sig for t in n.targets):
-            writes.append(n)
     loops = [n for n in f.body_nodes() if isinstance(n, (ast.For, ast.While))]
     ctx.check(not loops, R, f, loops[0] if loops else MISSING(f.node), "the update is not chunked or looped (no read of already-updated samples)",
               "pre-emphasis is applied piecewise in a loop; a piece that reads the sample before its first one after an earlier piece "
               "overwrote it computes x[i] - coeff*y[i-1] instead of x[i] - coeff*x[i-1]")
-    ctx.check(len(writes) == 1, R, f, writes[1] if len(writes) > 1 else f.node, "exactly one statement updates the signal",
-              "%d statements update the signal; the documented recurrence is a single whole-array update" % len(writes))
-    if len(writes) >= 1:
-        w = writes[0]
-        ok = isinstance(w, ast.AugAssign) and isinstance(w.op, ast.Sub)
-        t = astq.text(w.target).replace(" ", "") if ok else ""
-        v = astq.text(w.value).replace(" ", "") if ok else ""
-        ok = ok and t == "%s[...,1:]" % sig and v in ("self.coeff*%s[...,:-1]" % sig, "%s[...,:-1]*self.coeff" % sig)
-        ctx.check(ok, R, f, w, "the update is x[..., 1:] -= coeff * x[..., :-1] (sample 0 untouched)",
-                  "the update statement is `%s`, not x[..., 1:] -= coeff * x[..., :-1]" % astq.text(w))
-        # reached on every path to the return
-        cfg = CFG(f.node)
-        nw = cfg.node(w)
-        dom = cfg.dominators()
-        for r in astq.returns_of(f):
-            ctx.check(nw in dom.get(cfg.node(r), ()), R, f, r, "every return passes through the update",
-                      "a path returns without applying the pre-emphasis update")
-    # axis handling: moveaxis to -1 and back under the same test
-    mv = [c for c in astq.func_calls(f) if prog.qualify(f.module, c.func, f) == "numpy.moveaxis"]
-    ok = len(mv) == 2 and [astq.text(a) for a in mv[0].args[1:]] == ["axis", "-1"] and [astq.text(a) for a in mv[1].args[1:]] == ["-1", "axis"]
-    ctx.check(ok, R, f, mv[0] if mv else MISSING(f.node), "a given axis is moved to the end and back", "axis handling is %s" % [astq.text(c) for c in mv])
-    init = prog.own_method(prog.cls("pre.Preemphasize"), "__init__")
-    st = [n for n in init.body_nodes() if isinstance(n, ast.Assign) and astq.is_self_attr(n.targets[0], init.params[0], "coeff")]
-    ctx.check(len(st) == 1 and astq.text(st[0].value) == "coeff", R, init, st[0] if st else MISSING(init.node), "coeff is stored unchanged")
     # torch twin
     g = prog.func("torch.pytorch_preemphasize")
     ev = SymEval(prog, g).run()
@@ -89,38 +208,6 @@ def stencil(ctx, R="R-C18-stencil"):
         ok = ok or S.compare(v, want, domain={})["verdict"] == "equal"
     ctx.check(ok, R, g, ev.returns[0][2], "the torch twin is the same stencil with a zero before the first sample",
               "pytorch_preemphasize returns %s" % S.show(v)[:140])
-
-
-def roundtrip(ctx, R="R-C18-float64-roundtrip"):
-    prog = ctx.prog
-    for name in ("Dither", "Preemphasize"):
-        f = _apply(prog, name)
-        sig = f.params[1]
-        cfg = CFG(f.node)
-        dom = cfg.dominators()
-        cap = [n for n in f.body_nodes() if isinstance(n, ast.Assign) and astq.text(n.value) == "%s.dtype" % sig and isinstance(n.targets[0], ast.Name)]
-        ctx.check(len(cap) == 1, R, f, f.node, "%s.apply records the input dtype" % name, "%s.apply does not record signal.dtype exactly once" % name)
-        if len(cap) != 1:
-            continue
-        dn = cap[0].targets[0].id
-        # the capture precedes every rebinding of the signal
-        rebinds = [n for n in f.body_nodes() if isinstance(n, ast.Assign) and any(astq.is_name(t, sig) for t in n.targets)]
-        ncap = cfg.node(cap[0])
-        for r in rebinds:
-            ctx.check(ncap in dom.get(cfg.node(r), ()), R, f, r, "the dtype is recorded before the signal is converted",
-                      "the signal is re-bound before its dtype was recorded")
-        up = [r for r in rebinds if astq.text(r.value).replace(" ", "") == "%s.astype(np.float64)" % sig]
-        ctx.check(len(up) == 1, R, f, up[0] if up else MISSING(f.node), "%s.apply works on a float64 copy" % name, "no `signal = signal.astype(np.float64)` in %s.apply" % name)
-        if up:
-            pm = astq.parents(f)
-            g = [a for a in astq.ancestors(pm, up[0]) if isinstance(a, ast.If)]
-            t = astq.text(g[0].test).replace(" ", "") if g else ""
-            ok = len(g) == 1 and t in ("notin_placeor%s.dtype!=np.float64" % sig, "notin_placeor%s!=np.float64" % dn)
-            ctx.check(ok, R, f, g[0] if g else MISSING(up[0]), "the copy is skipped only for an in-place call on a float64 array",
-                      "the float64 copy is made under `%s`" % (astq.text(g[0].test) if g else "no condition"))
-        for r in astq.returns_of(f):
-            ok = astq.text(r.value).replace(" ", "") in ("%s.astype(%s,copy=False)" % (sig, dn), "%s.astype(%s)" % (sig, dn))
-            ctx.check(ok, R, f, r, "%s.apply ends with a cast back to the input dtype" % name, "%s.apply returns %s" % (name, astq.text(r.value)))
 
 
 def readonly(ctx, R="R-C18-readonly"):
@@ -140,56 +227,68 @@ def dither(ctx, R="R-C18-dither-independence"):
     prog = ctx.prog
     f = _apply(prog, "Dither")
     sig = f.params[1]
-    pm = astq.parents(f)
-    adds = [n for n in f.body_nodes() if isinstance(n, ast.AugAssign) and isinstance(n.op, ast.Add) and astq.is_name(n.target, sig)]
-    ctx.check(len(adds) >= 1, R, f, adds[0] if adds else MISSING(f.node), "the noise enters by addition to the signal", "no `signal += noise` in Dither.apply")
-    ev = SymEval(prog, f, inline_props=False)
-    ev.env = {}
-    DRAWS = {"np.random.normal": "normal", "np.random.standard_normal": "std", "np.random.randn": "std"}
+    ev = SymEval(prog, f).run()
+    ctx.need(len(ev.returns) >= 1, R, "Dither.apply has no return value")
     coeff = S.sym("self.coeff")
-    for a in adds:
-        e = ev.expr(a.value)
-        draws = [x for x in S.walk(e) if x.op == "call" and x.args[0] in DRAWS]
-        other = [x for x in S.walk(e) if x.op == "call" and (x.args[0].startswith(".normal") or x.args[0].startswith(".standard_normal") or x.args[0].startswith(".randn") or x.args[0].startswith(".random"))]
+    DRAWS = {"numpy.random.normal": "normal", "numpy.random.standard_normal": "std", "numpy.random.randn": "std"}
+    seen = 0
+    for g, val, rnode in ev.returns:
+        val = SC.canon_np(val)
+        calls = [x for x in S.walk(val) if isinstance(x, S.E) and x.op == "call"]
+        other = [x for x in calls if x.args[0] in (".normal", ".standard_normal", ".randn", ".random", ".integers", ".uniform")]
         if other:
-            ctx.bad(R, f, a, "noise is drawn by %s, not from numpy.random's global generator; numpy.random.seed no longer reproduces it" % S.show(other[0])[:60],
+            ctx.bad(R, f, rnode, "noise is drawn by %s, not from numpy.random's global generator; numpy.random.seed no longer reproduces it" % S.show(other[0])[:60],
                     "noise comes from the global NumPy generator")
             continue
-        if len(draws) != 1:
-            raise AnalysisError("%s: random draw not recognised in `%s`" % (R, astq.text(a)[:80]))
-        d = draws[0]
-        kind = DRAWS[d.args[0]]
-        if kind == "normal":
-            ok_form = e == d and len(d.args) >= 4
-            loc, scale, size = (d.args[1], d.args[2], d.args[3]) if ok_form else (None, None, None)
-        else:
-            # coeff * standard_normal(shape)
-            ok_form = e.op == "mul" and d in e.args
-            scale = [x for x in e.args if x is not d][0] if ok_form else None
-            loc, size = S.ZERO, (d.args[1] if len(d.args) > 1 else None)
-        if not ok_form:
-            raise AnalysisError("%s: noise expression not of the form normal(0, coeff, shape) / coeff * standard_normal(shape): %s" % (R, S.show(e)[:100]))
-        ctx.check(loc == S.ZERO, R, f, a, "the noise has mean 0", "noise mean is %s" % S.show(loc))
-        ctx.check(scale == coeff, R, f, a, "the noise scale is the object's coeff, read when apply is called (linear in coeff, none at coeff = 0)",
-                  "the noise is scaled by %s, not by self.coeff as it is when apply runs: changing coeff (or coeff = 0) no longer changes the noise accordingly"
-                  % S.show(scale))
-        names = set(S.symbols(size)) if size is not None else set()
-        ok = size is not None and all(nm in (sig + ".shape", sig + ".ndim", "random_shape", "axis") or nm.startswith("self.") is False and nm in (sig + ".shape",) for nm in names if nm != "random_shape" and nm != "axis")
-        if "random_shape" in names:
-            defs = [n for n in f.body_nodes() if isinstance(n, ast.Assign) and astq.base_name(n.targets[0]) == "random_shape"]
-            for dnode in defs:
-                for x in ast.walk(dnode.value):
-                    if isinstance(x, ast.Name) and x.id == sig:
-                        par = pm.get(id(x))
-                        if not (isinstance(par, ast.Attribute) and par.attr in ("shape", "ndim", "size")):
-                            ok = False
-        bad_names = [nm for nm in names if nm == sig]
-        ctx.check(ok and not bad_names, R, f, a, "the draw depends on the signal only through its shape (signal-independent noise)",
-                  "the size of the draw depends on %s" % sorted(names))
+        draws = []
+        for x in calls:
+            if x.args[0] in DRAWS and x not in draws:
+                draws.append(x)
+        if not draws:
+            raise AnalysisError("%s: random draw not recognised in the value returned by Dither.apply: %s" % (R, S.show(val)[:120]))
+        for d in draws:
+            seen += 1
+            kind = DRAWS[d.args[0]]
+            if kind == "normal":
+                if len(d.args) < 4:
+                    raise AnalysisError("%s: draw without an explicit size: %s" % (R, S.show(d)[:100]))
+                loc, scale, size = d.args[1], d.args[2], d.args[3]
+            else:
+                # coeff * standard_normal(shape): the scale is the other factor of the product the draw occurs in
+                prods = [x for x in S.walk(val) if isinstance(x, S.E) and x.op == "mul" and d in x.args]
+                if not prods:
+                    raise AnalysisError("%s: noise expression not of the form normal(0, coeff, shape) / coeff * standard_normal(shape)" % R)
+                rest = [x for x in prods[0].args if x is not d and x != d]
+                scale = rest[0] if len(rest) == 1 else S.mul(*rest) if rest else S.ONE
+                loc, size = S.ZERO, (d.args[1] if len(d.args) > 1 else None)
+            ctx.check(loc == S.ZERO, R, f, rnode, "the noise has mean 0", "noise mean is %s" % S.show(loc))
+            ctx.check(scale == coeff, R, f, rnode, "the noise scale is the object's coeff, read when apply is called (linear in coeff, none at coeff = 0)",
+                      "the noise is scaled by %s, not by self.coeff as it is when apply runs: changing coeff (or coeff = 0) no longer changes the noise accordingly"
+                      % S.show(scale))
+            # the size may mention the signal only through shape / ndim (and the axis argument)
+            def shape_only(x):
+                if not isinstance(x, S.E):
+                    return True
+                if x.op == "sym":
+                    return x.args[0] != sig
+                if x.op == "call" and x.args[0] in (".shape", ".ndim", "len") and len(x.args) == 2:
+                    inner = x.args[1]
+                    while isinstance(inner, S.E) and inner.op in ("call", "cond"):
+                        if inner.op == "cond":
+                            return all(shape_only(S.call(x.args[0], alt)) for alt in inner.args[1:])
+                        if inner.args[0] in (".astype", "numpy.moveaxis", ".shape"):
+                            inner = inner.args[1]
+                        else:
+                            break
+                    if isinstance(inner, S.E) and inner.op == "sym" and inner.args[0] == sig:
+                        return True
+                    return shape_only(inner)
+                return all(shape_only(a) for a in x.args)
+            ok = size is not None and shape_only(size)
+            ctx.check(ok, R, f, rnode, "the draw depends on the signal only through its shape (signal-independent noise)",
+                      "the size of the draw, %s, depends on the samples" % (S.show(size)[:120] if size is not None else "<none>"))
+    ctx.need(seen >= 1, R, "no random draw analysed")
     fresh_and_pure_no_return(ctx, R, f)
-    init = prog.own_method(prog.cls("pre.Dither"), "__init__")
-    st = [n for n in init.body_nodes() if isinstance(n, ast.Assign) and astq.is_self_attr(n.targets[0], init.params[0], "coeff")]
-    ctx.check(len(st) == 1 and astq.text(st[0].value) == "coeff", R, init, st[0] if st else MISSING(init.node), "coeff is stored unchanged")
     g = prog.func("torch.pytorch_dither")
     evg = SymEval(prog, g).run()
     v = evg.returns[0][1]
